@@ -208,7 +208,7 @@ func ruleS2(c *Ctx, id string) {
 				}
 				return false
 			}
-			abort := func(in ssa.Instruction) bool { return callTo(V.errRet)(in) }
+			abort := NewAlwaysInstr(P, callTo(V.Abort)) // Abort itself, or errRet and the like
 			ok := MustAfterE(ren, func(in ssa.Instruction) bool { return isAdd(in) || abort(in) }, nil, nil)(rc)
 			present := false
 			for _, b := range ren.Blocks {
